@@ -130,7 +130,6 @@ func (tr *Tr) staticCall(fr *frame, callee *ssa.Function, args []Val, bindings [
 			prop, lab = lab[:i], lab[i+1:]
 		}
 		tr.oblige(fr, "assert", lab, prop, fr.curReach, args[1].T, pos, "harness assertion "+lab)
-		tr.assume(fr.curReach, args[1].T)
 		return Val{Ty: rt}
 	}
 	if strings.HasSuffix(name, ".verifCanary") && len(args) == 2 {
@@ -257,7 +256,6 @@ func (tr *Tr) applyContract(fr *frame, callee *ssa.Function, c *Contract, args [
 			vfail("%s: contract of %s: requires %s: %v", fr.fn, c.Key, clauseLabel(r, k), err)
 		}
 		tr.oblige(fr, "pre:"+sc, clauseLabel(r, k), "", fr.curReach, t, pos, "precondition of "+c.Key+": "+r.Text)
-		tr.assume(fr.curReach, t)
 	}
 	// havoc what the callee may assign
 	if !c.HasAssigns {
@@ -479,7 +477,6 @@ func (tr *Tr) applyIfaceContract(fr *frame, c *Contract, cc *ssa.CallCommon, arg
 			vfail("%s: contract of %s: requires: %v", fr.fn, c.Key, err)
 		}
 		tr.oblige(fr, "pre:"+cc.Method.Name(), clauseLabel(r, k), "", fr.curReach, t, pos, "precondition of "+c.Key+": "+r.Text)
-		tr.assume(fr.curReach, t)
 	}
 	if !c.HasAssigns {
 		oldA := tr.curA(fr)
@@ -657,7 +654,9 @@ func (tr *Tr) appendOp(fr *frame, args []Val, rt types.Type, pos token.Pos) Val 
 		newArr = na
 	}
 	newArrN := tr.define("(Array "+bv64+" "+es+")", newArr, "app_contents")
-	fr.heap.m[ek] = tr.define(C.heapSort[ek], sto(E, ite(inPlace, app("s.arr", s.T), fresh), newArrN), ek)
+	// appending nothing in place writes nothing (in particular append(nil, empty...) touches no array)
+	noWrite := and(inPlace, eq(n, bvI(0, 64)))
+	fr.heap.m[ek] = tr.define(C.heapSort[ek], ite(noWrite, E, sto(E, ite(inPlace, app("s.arr", s.T), fresh), newArrN)), ek)
 	C.assumpt["append: the spare capacity of a reallocated result is modelled with unspecified (not zeroed) contents"] = true
 	return Val{T: resN, Ty: rt}
 }
